@@ -57,6 +57,9 @@ def safe_join(dest: str, relpath: str) -> str:
     """
     base = os.path.abspath(dest)
     full = os.path.abspath(os.path.join(base, str(relpath)))
+    if full.startswith("//"):
+        # normpath keeps exactly two leading slashes
+        full = full[1:]
     if full == base or os.path.commonpath([base, full]) != base:
         return None
     return full
